@@ -413,6 +413,47 @@ def plain_repeated_load(global_repo):
         shutil.rmtree(tmp, ignore_errors=True)
 
 
+def global_repo_provider_scenario(global_repo):
+    """GlobalRepo provider (file pattern) with roots loaded from strings: with a
+    metamodel-wide global repository every registered file is parsed once, all
+    roots see the same element objects, and a later load of one of the files
+    returns the model the roots already use"""
+    from textx import metamodel_from_str
+    import textx.scoping.providers as P
+    import shutil
+    tmp = tempfile.mkdtemp(prefix='c17g_')
+    problems = []
+    try:
+        for fn, text in (('t1.m', 'item a item b'), ('t2.m', 'item c use a')):
+            with open(os.path.join(tmp, fn), 'w') as f:
+                f.write(text)
+        mm = metamodel_from_str(GRAMMAR, global_repository=global_repo)
+        parses = []
+        mm.register_obj_processors({'Model': lambda m: parses.append(os.path.basename(m._tx_filename or '<string>'))})
+        mm.register_scope_providers({'*.*': P.PlainNameGlobalRepo(os.path.join(tmp, '*.m'))})
+        r1 = mm.model_from_str('use a use c')
+        r2 = mm.model_from_str('use c use b')
+        f1 = mm.model_from_file(os.path.join(tmp, 't1.m'))
+        if r1.uses[1].ref is not r2.uses[0].ref:
+            if global_repo:
+                problems.append('two string roots resolve "c" to different objects although the repository is global')
+        elif not global_repo:
+            problems.append('no global repository, but two separate loads share the object of "c"')
+        if global_repo:
+            if r1.uses[0].ref is not f1.items[0]:
+                problems.append('model_from_file(t1.m) is not the model whose elements the string roots reference')
+            counts = {k: parses.count(k) for k in ('t1.m', 't2.m')}
+            if counts != {'t1.m': 1, 't2.m': 1}:
+                problems.append('registered files parsed %s, expected once each' % counts)
+        for r in (r1, r2):
+            for u in r.uses:
+                if u.ref.name not in ('a', 'b', 'c'):
+                    problems.append('wrong target')
+        return problems
+    finally:
+        shutil.rmtree(tmp, ignore_errors=True)
+
+
 def main():
     import textx.scoping as S
     import textx.scoping.providers as P
@@ -486,6 +527,9 @@ def main():
     for gr in (False, True):
         for pr in plain_repeated_load(gr):
             chk.violation(pr, {'plain_repeated_load': gr})
+        for pr in global_repo_provider_scenario(gr):
+            chk.violation('GlobalRepo provider, global repository %s: %s' % (gr, pr), {'global_repo_provider': gr})
+    chk.cov['bounds']['global_repo_provider'] = 'PlainNameGlobalRepo(pattern), two string roots + a file load, global repository on/off: concrete'
     chk.cov['bounds']['plain_repeated_load'] = 'default provider (no model loader), global repository on/off: concrete'
     if chk.cov['model_mismatches']:
         chk.harness_error('a symbolic counterexample did not reproduce with concrete names')
@@ -499,6 +543,9 @@ def main():
 
 
 def replay(data):
+    if 'global_repo_provider' in data:
+        pr = global_repo_provider_scenario(data['global_repo_provider'])
+        return bool(pr), pr
     if 'plain_repeated_load' in data:
         pr = plain_repeated_load(data['plain_repeated_load'])
         return bool(pr), pr
